@@ -13,7 +13,7 @@ use crate::engine::{hash_f64s, part, Ctx, PartDef, Rec};
 use crate::geom::{Lattice, P};
 
 pub const TITLE: &str = "One lattice: Cartesian map, periodic images and cell area agree";
-pub const RULE: &str = "cases = (cell length log-uniform in [1e-3,1e3] (a quarter in 1e-12..1e-3 or 1e3..1e9), ratio in [0.05,2], angle in (0,pi) or a special value, any of the four families; a placement with arbitrary linear part and fractional position in [-3,3]^2 (a third of the coordinates of magnitude 1e-16..1 or exactly 0); shell count 0..6; zero flag), cells built by deserialising JSON. Oracle: M=[A B] with A=(a,0), B=(b cos t, b sin t) from the harness's own lattice; to_cartesian/_point/_isometry = M f (rel 1e-12) and additive/homogeneous; periodic_images as a multiset = {T+nA+mB : |n|,|m|<=k} minus the central one iff zero=false, each exactly once, linear part bit-identical; area = |A x B| from the harness lattice and from the code's own images of (1,0),(0,1); corners = M(+-1/2,+-1/2) as a set. Non-trivial = angle != pi/2 and shells >= 2; distinct by the hash of all case numbers.";
+pub const RULE: &str = "cases = (cell length log-uniform in [1e-3,1e3] (a quarter in 1e-12..1e-3 or 1e3..1e9), ratio in [0.05,2], angle in (0,pi) or a special value, any of the four families; a placement with arbitrary linear part and fractional position in [-3,3]^2 (a third of the coordinates of magnitude 1e-16..1 or exactly 0); shell count 0..6; zero flag), cells built by deserialising JSON. Oracle: M=[A B] with A=(a,0), B=(b cos t, b sin t) from the harness's own lattice; to_cartesian/_point/_isometry = M f (rel 1e-12) and additive/homogeneous; periodic_images as a multiset = {T+nA+mB : |n|,|m|<=k} minus the central one iff zero=false, each exactly once, linear part bit-identical; area = |A x B| from the harness lattice and from the code's own images of (1,0),(0,1); corners = M(+-1/2,+-1/2) as a set. A third of the cases evaluate a second, nearly identical cell (length, ratio, angle changed by 1e-15..1e-3) right after the first on the same thread and then the first again, each against the oracle for its own values. Non-trivial = angle != pi/2 and shells >= 2; distinct by the hash of all case numbers.";
 
 pub fn assumptions() -> Vec<&'static str> {
     vec!["Cell2 is observed only through its public methods on cells obtained by serde deserialisation", "tolerance 1e-12 relative to |a f_x| + |b f_y| (a few ulps of the products involved)"]
@@ -31,6 +31,10 @@ pub struct CellCase {
     pub scale: f64,
     pub shells: i64,
     pub zero: bool,
+    /// a second cell evaluated right after this one (same thread): relative changes of length and ratio and an
+    /// absolute change of the angle, each 0 or +-10^U(-15,-3); then this cell again
+    #[serde(default)]
+    pub twin: [f64; 3],
 }
 
 const FAMILIES: [&str; 4] = ["Monoclinic", "Orthorhombic", "Hexagonal", "Tetragonal"];
@@ -60,8 +64,12 @@ fn strat(_: &Ctx) -> BoxedStrategy<CellCase> {
         -4.0..4.0f64,
         0i64..=6,
         any::<bool>(),
+        prop_oneof![
+            2 => Just([0.0f64; 3]),
+            1 => proptest::array::uniform3(prop_oneof![1 => Just(0.0f64), 2 => ((-15.0..-3.0f64), any::<bool>()).prop_map(|(e, neg)| if neg { -(10f64.powf(e)) } else { 10f64.powf(e) })]),
+        ],
     )
-        .prop_map(|(length, ratio, angle, family, lin, f, g, scale, shells, zero)| CellCase { length, ratio, angle, family, lin, f, g, scale, shells, zero })
+        .prop_map(|(length, ratio, angle, family, lin, f, g, scale, shells, zero, twin)| CellCase { length, ratio, angle, family, lin, f, g, scale, shells, zero, twin })
         .boxed()
 }
 
@@ -73,7 +81,21 @@ fn close(a: f64, b: f64, tol: f64) -> bool {
     (a - b).abs() <= tol
 }
 
-fn oracle(c: &CellCase, rec: &Rec, _: &Ctx) -> Result<(), String> {
+fn oracle(c: &CellCase, rec: &Rec, ctx: &Ctx) -> Result<(), String> {
+    check_one(c, rec, ctx, true)?;
+    if c.twin != [0.; 3] {
+        // a nearly identical cell right after the first one, then the first again: each must be judged on its own values
+        let mut t = c.clone();
+        t.length = c.length * (1. + c.twin[0]);
+        t.ratio = c.ratio * (1. + c.twin[1]);
+        t.angle = (c.angle + c.twin[2]).max(1e-3).min(PI - 1e-3);
+        check_one(&t, rec, ctx, false).map_err(|e| format!("second cell {:?} evaluated right after {:?}: {}", (t.length, t.ratio, t.angle), (c.length, c.ratio, c.angle), e))?;
+        check_one(c, rec, ctx, false).map_err(|e| format!("cell {:?} evaluated again after {:?}: {}", (c.length, c.ratio, c.angle), (t.length, t.ratio, t.angle), e))?;
+    }
+    Ok(())
+}
+
+fn check_one(c: &CellCase, rec: &Rec, _: &Ctx, record: bool) -> Result<(), String> {
     let cell = make_cell(c.length, c.ratio, c.angle, c.family)?;
     let lat = Lattice::from_params(c.length, c.ratio, c.angle);
     let a = lat.va();
@@ -206,6 +228,9 @@ fn oracle(c: &CellCase, rec: &Rec, _: &Ctx) -> Result<(), String> {
                 return Err(format!("corner M({}, {}) = ({}, {}) missing from get_corners() = {:?}", sx, sy, want.x, want.y, corners));
             }
         }
+    }
+    if !record {
+        return Ok(());
     }
     let nt = c.angle != PI / 2. && c.shells >= 2;
     let class = format!("{}{}{}", FAMILIES[c.family], if nt { "/oblique-k>=2" } else { "/trivial" }, if c.zero { "/zero" } else { "/nozero" });
